@@ -40,6 +40,7 @@ func genConf(r *gen.Rand) conf {
 	cf.CacheCtl = r.Chance(1, 4)
 	cf.Polite = cf.VStore && cf.Inv && r.Chance(2, 3)
 	cf.ReuseCtx = r.Bool()
+	cf.PreHdr = cf.StoreHdr && r.Bool()
 	cf.KeepSlices = cf.VStore && r.Chance(1, 3)
 	if r.Chance(1, 7) {
 		// keys that differ only in letter case (the app routes case-insensitively by default;
@@ -203,6 +204,14 @@ func genReq(r *gen.Rand, cf conf, nkeys int) rq {
 		q.ExpSec, q.SubSec = 0, []string{"0", "0", "1", "500", "999"}[r.Intn(5)]
 	}
 	q.Enc = r.Chance(1, 4)
+	if cf.PreHdr {
+		for i := range q.Pre {
+			q.Pre[i] = []int{0, 0, 1, 1, 1, 2}[r.Intn(6)]
+		}
+	}
+	if cf.StoreHdr && r.Chance(1, 12) {
+		q.Multi = true
+	}
 	if r.Chance(1, 25) {
 		q.Sleep = r.Range(1, 2)
 	}
